@@ -255,7 +255,7 @@ class C42(core.Check):
         ['P', 'g', 'n', 'x'])
     TRUSTED = [
         'hand model model/Play.v of Sound.play_/emit_tone and of the MML scanner (mlparser.py, codestream.py), one '
-        'voice, default syntax (no Tandy/PCjr V command and multi-voice), tied by correspondence on a recording '
+        'voice per run (default syntax; multi-string PLAY under tandy/pcjr is the model run per voice on its own state; no V), tied by correspondence on a recording '
         'audio queue; scalar variables only in =var; and Xvar; (arrays and VARPTR$ forms are CHost, not generated)',
         'binary64 rounding of the duration products is outside the theorems: the model is exact (Q); the '
         'correspondence requires every observed duration and state float to be within 2^-40 relative of the exact '
@@ -335,7 +335,54 @@ class C42(core.Check):
                     b'MB Xi%;', b'MB n=a$;', b'MB XQ;C', b'MB N=ZZ;', b'MB L=I %;'):
             res.append(self.mk({'I%': {'k': 'n', 'v': 34}, 'A$': {'k': 's', 'ast': [], 'b': list(b'C D')}},
                                [S(None, raw=raw)]))
+        # multi-voice PLAY (Tandy/PCjr): every voice has its own play state (seeded change C42f: shared state)
+        C = ['note', 'C', '', None, 0]
+        for syn in ('tandy', 'pcjr'):
+            res.append(self.mk_multi(syn, [[[MB, ['O', 1], ['L', 64], C], [MB, ['O', 4], ['L', 4], C],
+                                            [MB, ['O', 6], ['L', 32], C]]]))
+            res.append(self.mk_multi(syn, [[[MB, ['O', 2], ['T', 200], ['M', 'S'], C], None, None],
+                                           [[MB, C], [MB, C], [MB, ['M', 'L'], ['>'], C]],
+                                           [[MB, C], None, [MB, C]]]))
         return res
+
+    def mk_multi(self, syntax, stmts, rng=None):
+        """stmts: list of [cmds|None] * 3 (voice 0 always present)"""
+        return {'env': {}, 'syntax': syntax,
+                'multi': [[None if v is None else self.stmt(v, rng) for v in st] for st in stmts]}
+
+    def rand_voice_cmds(self, rng, hist):
+        """valid commands only (an error in one voice would cut the others at an interleaving-dependent point);
+        no octave 0 / N1..9 (Tandy plays frequencies below 110 Hz as 110 Hz), no MF, no X, no V"""
+        cmds = [['M', 'B']]
+        sounding = 0
+        for _ in range(rng.choice([1, 2, 3, 5, 8])):
+            r = rng.random()
+            if r < 0.35 and sounding < 4:
+                letter = rng.choice(LETTERS)
+                acc = rng.choice(['', '', '#', '+', '-'])
+                if (letter, acc) in (('E', '#'), ('E', '+'), ('B', '#'), ('B', '+'), ('C', '-'), ('F', '-')):
+                    acc = ''
+                cmds.append(['note', letter, acc, rng.choice([None, None, 0, 1, 3, 4, 8, 16, 64]),
+                             rng.choice([0, 0, 1, 2])])
+                sounding += 1
+            elif r < 0.42 and sounding < 4:
+                cmds.append(['pause', rng.choice([1, 2, 4, 8, 64]), rng.choice([0, 0, 1])])
+                sounding += 1
+            elif r < 0.5 and sounding < 4:
+                cmds.append(['N', rng.choice([0, 10, 22, 34, 48, 84]), rng.choice([0, 0, 1])])
+                sounding += 1
+            elif r < 0.62:
+                cmds.append(['L', rng.choice(L_POOL)])
+            elif r < 0.74:
+                cmds.append(['T', rng.choice(T_POOL)])
+            elif r < 0.86:
+                cmds.append(['O', rng.choice([1, 2, 3, 4, 5, 6])])
+            elif r < 0.92:
+                cmds.append(['>'])
+            else:
+                cmds.append(['M', rng.choice('NLS')])
+        hist['multi_voice_strings'] += 1
+        return cmds
 
     def fill_env(self, env, rng=None):
         """Render string variables (innermost first; env asts never recurse by construction)."""
@@ -441,10 +488,25 @@ class C42(core.Check):
     def gen_cases(self, n):
         rng = self.rng
         keys = ['note', 'pause', 'N', 'L', 'T', 'O', '<>', 'MN', 'ML', 'MS', 'MF', 'MB', 'X', 'var_number',
-                'out_of_range', 'wrong_type_var', 'structured', 'mutated', 'random_bytes', 'statements']
+                'out_of_range', 'wrong_type_var', 'structured', 'mutated', 'random_bytes', 'statements',
+                'multi_voice_cases', 'multi_voice_strings']
         hist = dict((k, 0) for k in keys)
         out = []
         for i in range(n):
+            if i % 8 == 7:
+                # multi-voice PLAY under the Tandy/PCjr syntaxes: 1..3 statements of 1..3 strings, each voice keeps
+                # its own state over the statements (incl. a single-string PLAY followed by a multi-string one)
+                stmts = []
+                for j in range(rng.choice([1, 2, 2, 3])):
+                    nv = rng.choice([1, 2, 3, 3])
+                    voices = [self.rand_voice_cmds(rng, hist)]
+                    for v in (1, 2):
+                        voices.append(self.rand_voice_cmds(rng, hist) if (nv == 3 or (nv == 2 and v == rng.choice([1, 2])))
+                                      else None)
+                    stmts.append(voices)
+                out.append(self.mk_multi(rng.choice(['tandy', 'pcjr']), stmts, rng))
+                hist['multi_voice_cases'] += 1
+                continue
             env = {}
             for nm in rng.sample(NUM_VARS, rng.randrange(0, 4)):
                 env[nm] = {'k': 'n', 'v': rng.choice(N_POOL + L_POOL + T_POOL)}
@@ -510,7 +572,78 @@ class C42(core.Check):
             cache[key] = self._observe(case)
         return cache[key]
 
+    def _observe_multi(self, case):
+        """per voice: [(events, status, octave, fg, [length, tempo, fill])] for the statements it takes part in"""
+        import importlib
+        sound = importlib.import_module('pcbasic.basic.sound')
+        table = list(sound.NOTE_FREQ)
+        res = [[], [], []]
+        with common.new_session(syntax=case['syntax']) as s:
+            s.start()
+            impl = s._impl
+            audio = queue.Queue()
+            impl.queues.audio = audio
+            if case['syntax'] == 'pcjr':
+                s.execute('SOUND ON')
+            for st in case['multi']:
+                args = []
+                for v, sv in enumerate(st):
+                    if sv is not None:
+                        s.set_variable('M%d$' % v, bytes(sv['b']))
+                    args.append('' if sv is None else 'M%d$' % v)
+                while args and args[-1] == '':
+                    args.pop()
+                s.execute('ERROR %d' % SENTINEL)
+                while not audio.empty():
+                    audio.get_nowait()
+                status = [0, 0]
+                try:
+                    with core.time_limit(60):
+                        s.execute('PLAY ' + ','.join(args))
+                    err = s.evaluate('ERR')
+                    if err != SENTINEL:
+                        status = [1, int(err)]
+                except Exception as e:
+                    status = common.canon_exc(e)
+                sigs = []
+                while not audio.empty():
+                    sig = audio.get_nowait()
+                    if sig.event_type == 'tone':
+                        sigs.append(sig.params)
+                    elif sig.event_type not in ('persist', 'hush'):
+                        sigs.append((0, -3.0, 0.0, True, 0))
+                # the synchronisation marker: one silent signal per voice before the first tone of the statement
+                synch_ok = True
+                if sigs:
+                    head, sigs = sigs[:3], sigs[3:]
+                    synch_ok = [(h[0], h[1], bool(h[3]), h[4]) for h in head] == [(v, 0, False, 0) for v in range(3)]
+                per = [[], [], []]
+                for voice, freq, dur, loop, vol in sigs:
+                    if voice not in (0, 1, 2) or loop or not synch_ok:
+                        code = -2
+                    elif freq == 0:
+                        code = 0
+                    elif freq in table:
+                        code = table.index(freq) + 1
+                    else:
+                        code = -1
+                    per[voice if voice in (0, 1, 2) else 0].append((code, int(vol), dur, freq))
+                for v, sv in enumerate(st):
+                    if sv is None:
+                        if per[v]:
+                            res[v].append((per[v], [2, 8], 0, 0, [0.0, 0.0, 0.0]))      # tones on an absent voice
+                        continue
+                    ps = impl.sound._state[v]
+                    res[v].append((per[v], status, int(ps.octave), int(bool(impl.sound._foreground)),
+                                   [ps.length, ps.tempo, ps.fill]))
+        return res
+
     def _observe(self, case):
+        if 'multi' in case:
+            return self._observe_multi(case)
+        return self._observe_single(case)
+
+    def _observe_single(self, case):
         """[(events [(code, vol, dur)], status [a, b], octave, fg, [length, tempo, fill])] per statement"""
         import importlib
         sound = importlib.import_module('pcbasic.basic.sound')
@@ -568,7 +701,10 @@ class C42(core.Check):
 
     def impl(self, case):
         out = []
-        for evs, status, octave, fg, fl in self.observe(case):
+        obs = self.observe(case)
+        if 'multi' in case:
+            obs = obs[0] + obs[1] + obs[2]
+        for evs, status, octave, fg, fl in obs:
             out.append(len(evs))
             for ev in evs:
                 out += [ev[0], ev[1], 1]
@@ -591,8 +727,21 @@ class C42(core.Check):
                 items.append('(%s, VNum (%d))' % (key, e['v']))
         return '[' + '; '.join(items) + ']'
 
+    def voice_stmts(self, case, v):
+        return [st[v] for st in case['multi'] if st[v] is not None]
+
     def model_term(self, case):
         obs = self.observe(case)
+        if 'multi' in case:
+            # every voice is the one-voice model on its OWN state, over the strings that voice was given
+            parts = []
+            for v in range(3):
+                stmts = []
+                for st, (evs, status, octave, fg, fl) in zip(self.voice_stmts(case, v), obs[v]):
+                    stmts.append('(%s, %s, %s)' % (core.zl(st['b']), self.pairs([ratio(ev[2]) for ev in evs]),
+                                                   self.pairs([ratio(x) for x in fl])))
+                parts.append('play_case %d [] init_state [%s]' % (FUEL, '; '.join(stmts)))
+            return '(%s)' % ' ++ '.join(parts)
         stmts = []
         for st, (evs, status, octave, fg, fl) in zip(case['stmts'], obs):
             stmts.append('(%s, %s, %s)' % (core.zl(st['b']), self.pairs([ratio(ev[2]) for ev in evs]),
@@ -601,13 +750,49 @@ class C42(core.Check):
 
     # ---- property oracle
     def nontrivial(self, case, out):
+        if 'multi' in case:
+            return any(len(o[0]) > 0 for ov in self.observe(case) for o in ov)
         return any(len(o[0]) > 0 for o in self.observe(case))
 
     @staticmethod
     def rel_close(x, q, tol=1e-12):
         return abs(Fraction(x) - q) <= abs(q) * Fraction(tol)
 
+    def oracle_multi(self, case):
+        obs = self.observe(case)
+        for v in range(3):
+            st = RefState()
+            stmts = self.voice_stmts(case, v)
+            if len(stmts) != len(obs[v]):
+                return 'voice %d: tone signals in a PLAY statement that has no string for this voice' % v
+            for k, (stc, (evs, status, octave, fg, fl)) in enumerate(zip(stmts, obs[v])):
+                tag = 'voice %d, its statement %d (%r): ' % (v, k, bytes(stc['b']).decode('latin-1'))
+                if status != [0, 0]:
+                    return tag + 'PLAY failed: %r' % (status,)
+                want = []
+                err = ref_run(stc['ast'], {}, st, want)
+                if err:
+                    return tag + 'generator produced an invalid string'
+                if len(want) != len(evs):
+                    return tag + 'expected %d tone signals, PLAY emitted %d' % (len(want), len(evs))
+                for j, (w, ev) in enumerate(zip(want, evs)):
+                    wcode = 0 if w[0] is None else w[0] + 1
+                    if wcode != ev[0]:
+                        return tag + 'signal %d: expected note index %r, got %r (%r Hz)' % (j, wcode - 1, ev[0] - 1, ev[3])
+                    if w[2] != ev[1]:
+                        return tag + 'signal %d: expected volume %d, got %d' % (j, w[2], ev[1])
+                    if not self.rel_close(ev[2], w[1]):
+                        return tag + 'signal %d: expected duration %s = %r s, got %r' % (j, w[1], float(w[1]), ev[2])
+                if st.octave != octave:
+                    return tag + 'state: expected octave %d, got %d' % (st.octave, octave)
+                if not (self.rel_close(fl[0], Fraction(1, st.L)) and self.rel_close(fl[1], Fraction(240, st.T))
+                        and self.rel_close(fl[2], st.fillq)):
+                    return tag + 'state: expected L%s T%s fill %s, got %r' % (st.L, st.T, st.fillq, fl)
+        return None
+
     def oracle(self, case, out):
+        if 'multi' in case:
+            return self.oracle_multi(case)
         obs = self.observe(case)
         st = RefState()
         env = case['env']
@@ -676,6 +861,27 @@ class C42(core.Check):
 
     # ---- shrinking: drop statements, drop commands (re-rendered compactly), shorten raw strings
     def shrink_candidates(self, case):
+        if 'multi' in case:
+            m = case['multi']
+            def mk(mm):
+                return {'env': {}, 'syntax': case['syntax'], 'multi': mm}
+            if len(m) > 1:
+                for i in range(len(m)):
+                    yield mk(m[:i] + m[i + 1:])
+            for i, st in enumerate(m):
+                for v in (1, 2):
+                    if st[v] is not None:
+                        yield mk(m[:i] + [[x if w != v else None for w, x in enumerate(st)]] + m[i + 1:])
+                for v in range(3):
+                    if st[v] is not None:
+                        ast = st[v]['ast']
+                        compact = self.stmt(ast)
+                        if compact['b'] != st[v]['b']:
+                            yield mk(m[:i] + [[x if w != v else compact for w, x in enumerate(st)]] + m[i + 1:])
+                        for j in range(1, len(ast)):
+                            sm = self.stmt(ast[:j] + ast[j + 1:])
+                            yield mk(m[:i] + [[x if w != v else sm for w, x in enumerate(st)]] + m[i + 1:])
+            return
         stmts = case['stmts']
         if len(stmts) > 1:
             for i in range(len(stmts)):
@@ -705,6 +911,10 @@ class C42(core.Check):
         return d['case'] if isinstance(d, dict) and 'case' in d else d
 
     def describe(self, case):
+        if 'multi' in case:
+            return {'syntax': case['syntax'],
+                    'play': [[None if v is None else bytes(v['b']).decode('latin-1') for v in st]
+                             for st in case['multi']], 'case': case}
         return {'env': dict((nm, (bytes(e['b']).decode('latin-1') if e['k'] == 's' else e['v']))
                             for nm, e in case['env'].items()),
                 'play': [bytes(st['b']).decode('latin-1') for st in case['stmts']],
